@@ -356,7 +356,7 @@ Section Prims.
       | _ => stuck f s
       end
     (* ---- the address of the static DEFAULT_U8: the never-allocated handle ---- *)
-    else if is "as::<*mutT>" then
+    else if is "as::<*mutT>" || is "as::<*const_>" then
       match args with [p] => match val_eptr p with Some _ => k p s | None => stuck f s end | _ => stuck f s end
     else if is "as::<*constu8>" || is "as::<*mutu8>" then
       match args with
